@@ -169,6 +169,8 @@ class Evaluator(Interp):
                     if mn == attr:
                         ty = self.cdb.types.enum_ty(ci.qname)
                         return SV(ty, ty.member(mn))
+            if attr == "__name__":
+                return SV(TStr, z3.StringVal(ci.name))
             m = self.w.find_method(ci.qname, attr)
             if m is not None:
                 if m.kind == "classmethod":
@@ -234,6 +236,9 @@ class Evaluator(Interp):
     def obj_getattr(self, obj: SV, attr: str, fr: Frame):
         t = obj.ty
         cls = t.cls
+        if attr == "__class__":
+            q = self.dyn_exact_class(obj, fr) if isinstance(t, TObj) and not fr.pure else cls
+            return VClass(self.w.get_class(q))
         if isinstance(t, TRec):
             fty = t.fty(attr)
             if fty is not None:
@@ -263,9 +268,6 @@ class Evaluator(Interp):
         t = obj.ty
         if isinstance(t, TRec) or t.exact:
             return t.cls
-        ic = self.cdb.interface_contract(t.cls, attr)
-        if ic is not None:
-            return ic[0]  # no fork: the call goes through the interface contract
         subs = self.w.subclasses(t.cls)
         # group subclasses by the implementation they resolve `attr` to
         impls: dict = {}
@@ -278,6 +280,9 @@ class Evaluator(Interp):
             impls.setdefault(key, []).append(s)
         if len(impls) <= 1:
             return t.cls
+        ic = self.cdb.interface_contract(t.cls, attr)
+        if ic is not None:
+            return ic[0]  # several implementations: no fork, the call goes through the interface contract
         if fr.pure:
             raise Unsupported(f"dynamic dispatch of {attr} on {t.cls} in a specification")
         keys = list(impls.keys())
@@ -657,8 +662,8 @@ class Evaluator(Interp):
 
     def e_Subscript(self, node, fr):
         base = self.eval(node.value, fr)
-        if isinstance(base, VBuiltin) and base.name.startswith(("typevar", "ext:")):
-            return base
+        if isinstance(base, VBuiltin) and (base.name.startswith(("typevar", "ext:")) or base.name in ("list", "dict", "set", "tuple", "type", "frozenset")):
+            return base  # generic alias such as list[str]
         if isinstance(base, VClass):
             return base  # Generic[...] subscription
         idx = self.eval(node.slice, fr)
@@ -969,6 +974,17 @@ class Evaluator(Interp):
             return self.cdb.builtins.range_to_seq(self, v, fr)
         if isinstance(v, SV) and isinstance(v.ty, TDict) and v.ty.ordered:
             return SV(TSeq(v.ty.k), v.ty.keys(v.term))
+        if isinstance(v, SV) and isinstance(v.ty, TSet):
+            # a set listed in *some* order: duplicate-free, exactly the members
+            ks = self.fresh("setlist", z3.SeqSort(v.ty.k.sort()))
+            i, j = self.bound("sli", z3.IntSort()), self.bound("slj", z3.IntSort())
+            x = self.bound("slx", v.ty.k.sort())
+            ln = z3.Length(ks)
+            self.assume(z3.ForAll([i], z3.Implies(z3.And(i >= 0, i < ln), z3.Select(v.term, ks[i]))))
+            self.assume(z3.ForAll([i, j], z3.Implies(z3.And(i >= 0, i < j, j < ln), ks[i] != ks[j])))
+            self.assume(z3.ForAll([x], z3.Implies(z3.Select(v.term, x), z3.Exists([i], z3.And(i >= 0, i < ln, ks[i] == x)))))
+            self.notes.add("iteration order of a set is unspecified: modelled as some duplicate-free listing of its members")
+            return SV(TSeq(v.ty.k), ks)
         if isinstance(v, SV) and isinstance(v.ty, (TObj, TRec)):
             it = self.call_method(v, "__iter__", [], {}, fr)
             return self.iter_to_seq(it, fr)
@@ -1167,8 +1183,25 @@ class Evaluator(Interp):
             self.narrow_not(st.test, fr)
             self.exec_block(st.orelse, fr)
 
+    def narrow_none(self, test, fr, truth: bool):
+        """`x is None` / `x is not None` with known outcome: give the optional local its payload type."""
+        if not (isinstance(test, ast.Compare) and len(test.ops) == 1 and isinstance(test.left, ast.Name)
+                and isinstance(test.comparators[0], ast.Constant) and test.comparators[0].value is None):
+            return False
+        is_none = isinstance(test.ops[0], ast.Is)
+        if not is_none and not isinstance(test.ops[0], ast.IsNot):
+            return False
+        nm = test.left.id
+        v = fr.env.get(nm)
+        known_none = (truth == is_none)
+        if isinstance(v, SV) and isinstance(v.ty, TOpt):
+            fr.env[nm] = NONE if known_none else self.assume_wf(SV(v.ty.inner, acc(v.ty.val(v.term))))
+        return True
+
     def narrow_not(self, test, fr):
         """`isinstance(x, T)` found false for a union-typed local: drop the alternatives T covers."""
+        if self.narrow_none(test, fr, False):
+            return
         if not (isinstance(test, ast.Call) and isinstance(test.func, ast.Name) and test.func.id == "isinstance" and len(test.args) == 2 and isinstance(test.args[0], ast.Name)):
             return
         nm = test.args[0].id
@@ -1196,6 +1229,8 @@ class Evaluator(Interp):
         if isinstance(test, ast.BoolOp) and isinstance(test.op, ast.And):
             for v in test.values:
                 self.narrow(v, fr)
+            return
+        if self.narrow_none(test, fr, True):
             return
         if (isinstance(test, ast.Call) and isinstance(test.func, ast.Name) and test.func.id == "isinstance" and len(test.args) == 2
                 and isinstance(test.args[0], (ast.Attribute, ast.Subscript))):
